@@ -34,7 +34,9 @@ enum Op { Next, Frames(usize), Drain, Until, Look, Nth(usize) }
 #[derive(Clone, Debug)]
 struct Ob { out: Vec<Option<i32>>, pulls: u64, exhausted: bool }
 
-struct Case { cap: usize, start: usize, prefill: Vec<i32>, src: Vec<i32>, ops: Vec<Op> }
+/// `leak`: every partially drained batch iterator of the case is leaked (`mem::forget`) instead of dropped — what it
+/// handed out is consumed all the same (token `L<k>` instead of `F<k>`)
+struct Case { cap: usize, start: usize, prefill: Vec<i32>, src: Vec<i32>, ops: Vec<Op>, leak: bool }
 
 fn run_buffered<D>(rb: ring_buffer::Bounded<D>, c: &Case) -> (Vec<Ob>, Vec<i32>)
 where
@@ -49,7 +51,7 @@ where
     for &op in &c.ops {
         let out: Vec<Option<i32>> = match op {
             Op::Next => vec![Some(b.next())],
-            Op::Frames(k) => { let mut it = b.next_frames(); (0..k).map(|_| it.next()).collect() }
+            Op::Frames(k) => { let mut it = b.next_frames(); let v = (0..k).map(|_| it.next()).collect(); if c.leak { std::mem::forget(it); } v }
             Op::Drain => b.next_frames().map(Some).collect(),
             // the batch iterator advanced with `Iterator::nth` (what `skip` / `step_by` call), then dropped
             Op::Nth(k) => vec![b.next_frames().nth(k)],
@@ -98,7 +100,7 @@ fn line(c: &Case) -> String {
     for v in &c.src { s.push(' '); s.push_str(&v.to_string()); }
     for op in &c.ops {
         s.push(' ');
-        match op { Op::Next => s.push('N'), Op::Frames(k) => s.push_str(&format!("F{}", k)), Op::Drain => s.push('D'), Op::Until => s.push('U'), Op::Look => s.push('E'), Op::Nth(k) => s.push_str(&format!("T{}", k)) }
+        match op { Op::Next => s.push('N'), Op::Frames(k) => s.push_str(&format!("{}{}", if c.leak { 'L' } else { 'F' }, k)), Op::Drain => s.push('D'), Op::Until => s.push('U'), Op::Look => s.push('E'), Op::Nth(k) => s.push_str(&format!("T{}", k)) }
     }
     s
 }
@@ -192,6 +194,7 @@ fn rand_vals(rng: &mut Rng, n: usize, base: i32) -> Vec<i32> {
 fn case(st: &mut Stream, c: &Case, kind: &str) {
     let l = line(c);
     mark(0, &l);
+    if c.leak { st.count("case_with_batch_iterators_leaked_mem_forget"); }
     let r = run_case(c);
     // non-trivial: anything the three doc examples (2 slots, start 0, empty or full pre-fill, 4-frame source,
     // next only or fully drained batches only) never do
@@ -270,7 +273,7 @@ pub fn run(a: &Args) {
                     let prefill = rand_vals(&mut rng, len, -5000);
                     let src = rand_vals(&mut rng, n, 1000);
                     let total = len + n + cap + 2;
-                    let mk = |ops: Vec<Op>| Case { cap, start, prefill: prefill.clone(), src: src.clone(), ops };
+                    let mk = |ops: Vec<Op>| Case { cap, start, prefill: prefill.clone(), src: src.clone(), ops, leak: (cap + start + src.len()) % 3 == 0 };
                     // the fixed consumption patterns: frame by frame, batch by batch, drain to exhaustion at once
                     case(&mut st, &mk((0..total).flat_map(|_| [Op::Next, Op::Look]).take(40).collect()), "fixed_next_only");
                     case(&mut st, &mk((0..(total / cap + 2)).map(|_| Op::Drain).collect()), "fixed_batches_fully_drained");
@@ -293,7 +296,7 @@ pub fn run(a: &Args) {
         let start = rng.usize_below(cap);
         let len = rng.usize_below(cap + 1);
         let n = rng.usize_below(3 * cap + 2);
-        let c = Case { cap, start, prefill: rand_vals(&mut rng, len, -5000), src: rand_vals(&mut rng, n, 1000), ops: random_ops(&mut rng, cap, len + n + cap) };
+        let c = Case { cap, start, prefill: rand_vals(&mut rng, len, -5000), src: rand_vals(&mut rng, n, 1000), ops: random_ops(&mut rng, cap, len + n + cap), leak: rng.chance(1, 4) };
         case(&mut st, &c, "random_larger_capacity");
     }
     // large ring buffers: whole-buffer refills (exactly `cap` pulls each time the buffer is found empty), batch
@@ -321,7 +324,7 @@ pub fn run(a: &Args) {
                 }
                 if rng.chance(2, 3) { ops.push(Op::Until); ops.push(Op::Look); }
             }
-            let c = Case { cap, start, prefill: rand_vals(&mut rng, len, -900_000), src: rand_vals(&mut rng, n, 1000), ops };
+            let c = Case { cap, start, prefill: rand_vals(&mut rng, len, -900_000), src: rand_vals(&mut rng, n, 1000), ops, leak: rng.chance(1, 4) };
             case(&mut st, &c, "large_capacity");
         }
     }
